@@ -34,6 +34,24 @@ def _reset_window():
     return out
 
 
+def _full_buffer_requeue():
+    """the buffer is full (10 held during an outage) when the link comes up congested: the first flush blocks, further commands are
+    accepted into the room the flush made and block too, then the connection fails and every in-flight command with retries left
+    goes back to the HEAD of the buffer, which thereby holds more than its nominal capacity.  Nothing may fall off the other end:
+    every accepted command is written on the next connection, is dropped with a reason, or is still held."""
+    out = []
+    for extra in (1, 2, 3):
+        for fail in ([("peer", "reset")], [("peer", "eof")], [("peer", "timeout")]):
+            for k in (0, 1, 3):
+                sc = [("net", "refuse"), ("open",), ("adv", 1)] + [("send", i, "ok", "idem") for i in range(1, 11)]
+                sc += [("blockfirst", 1), ("net", "accept"), ("adv", 17)]
+                for j in range(extra):
+                    sc += [("send", 11 + j, "ok", "idem"), ("turn", 1)]
+                sc += [("turn", k)] + fail + [("blockfirst", 0), ("adv", 40), ("heal",)]
+                out.append(("faults", sc))
+    return out
+
+
 def _cancel_window(ctx, gen):
     """the caller of one send() gives up (its task is cancelled, as a timeout around the call does) while the link is congested
     and other commands are in flight: the connection stays up and no write fails, so every OTHER accepted command is still
@@ -116,6 +134,7 @@ def run(ctx, deep=False):
         items = sockcheck.gen_scripts(ctx.seed * 131 + gen, plan)
         items.append(("steady", _long_run(320 if not thorough else 1000)))
         items += _reset_window()
+        items += _full_buffer_requeue()
         good = sockcheck.judge_family(ctx, "C01", items, MONITORS, gen=gen, nontrivial=_nontrivial)
         sockcheck.validate_against_model(ctx, good, "AT%d" % gen)
         _cancel_window(ctx, gen)
